@@ -253,6 +253,8 @@ def main(tier):
                         stats["samples"].append({"config": cfg, "parsed_settings": real})
                 finally:
                     sim.close()
+            # (d2) the documented 'all_attackers' keyword of the Defender goal
+            CC.probe_all_attackers_goal(lambda tags, sig, desc, rep: V.fail(sig, desc, rep) if "C19" in tags else None, cstats)
             # (e) behaviour: sessions whose model settings come from the file through the model's reader
             tabs = info["tables"]["defender"]
 
